@@ -10,6 +10,8 @@ Supported subset
                if <comparison>: ... [else: ...]  < <= > >= == != on integers, == != on bytes (operands may read the cursor)
                try: <stmts> except ...: raise ...   (every exception is one outcome: None)
                with open(path, mode) as f: <stmts>
+               a, b = helper(f, ...) | x = helper(f, ...)   a module-level function of writer.py / util.py whose first parameter is the
+                                                 file object: INLINED (locals renamed, defaults bound, `return` = continuation)
                x = from_buffer(e, ..)            x stands for the bytes it was parsed from
                update_custom_metadata(x, ..)     x := thrift x   (thrift : bytes -> bytes = serialise o update o parse, opaque)
   expressions: ints, bytes literals, names, module-level integer constants, + - unary -, min/max, len(e), e[a:b],
@@ -19,6 +21,8 @@ Supported subset
 Effects inside expressions are sequenced left to right (continuation passing); an `if` duplicates its continuation.
 """
 import ast
+import copy
+import os
 import sys
 
 
@@ -35,6 +39,10 @@ class Tr:
         self.fname, self.f, self.flags = fname, fvar, flags
         self.consts = consts or {}
         self.n = 0
+        self.helpers = {}       # name -> (FunctionDef, integer constants of its module): helpers taking the file object, inlined at the call
+        self.n_inl = 0
+        self.ret_k = None
+        self.stop = None
 
     # ---- static types of expressions: 'int' | 'bytes' | 'bool' ------------------------------------------------------
     def typeof(self, e, env):
@@ -166,6 +174,55 @@ class Tr:
                 return self.expr(v.args[1], env, lambda x: "match unpack_I %s with None => None | Some %s => %s end" % (x, t, k(t)))
         self.bail(e, "unsupported expression %s" % ast.dump(e)[:100])
 
+    # ---- helper functions taking the file object: inlined ---------------------------------------------------------------
+    def inline(self, call, env, after):
+        fn, consts = self.helpers[call.func.id]
+        if call.keywords and any(k.arg is None for k in call.keywords):
+            self.bail(call, "unsupported call of helper %s" % fn.name)
+        params = [a.arg for a in fn.args.args]
+        if not params or not call.args or not (isinstance(call.args[0], ast.Name) and call.args[0].id == self.f):
+            self.bail(call, "helper %s must be given the file object first" % fn.name)
+        self.n_inl += 1
+        pre = "h%d_" % self.n_inl
+        local = set(params[1:])
+        for n in ast.walk(fn):
+            if isinstance(n, ast.Name) and isinstance(n.ctx, ast.Store):
+                local.add(n.id)
+        fparam, fvar = params[0], self.f
+
+        class Ren(ast.NodeTransformer):
+            def visit_Name(self, node):
+                if node.id == fparam:
+                    return ast.copy_location(ast.Name(id=fvar, ctx=node.ctx), node)
+                if node.id in local:
+                    return ast.copy_location(ast.Name(id=pre + node.id, ctx=node.ctx), node)
+                return node
+        body = [Ren().visit(copy.deepcopy(st)) for st in fn.body]
+        # bind the parameters: positional, keyword, default
+        given = dict(zip(params[1:], call.args[1:]))
+        given.update({k.arg: k.value for k in call.keywords})
+        defaults = dict(zip(params[len(params) - len(fn.args.defaults):], fn.args.defaults))
+        old_consts, old_ret = self.consts, self.ret_k
+        self.consts = {**consts, **old_consts}
+        try:
+            binds, e2 = [], dict(env)
+            for pname in params[1:]:
+                src = given.get(pname, defaults.get(pname))
+                if src is None:
+                    self.bail(call, "helper %s: parameter %s not given" % (fn.name, pname))
+                binds.append((pre + pname, src))
+
+            def bind(i, envb):
+                if i == len(binds):
+                    self.ret_k = after
+                    return self.block(body, envb, lambda e3: self.bail(fn, "helper %s may fall off its end" % fn.name))
+                nm, src = binds[i]
+                ty = self.typeof(src, envb)
+                return self.expr(src, envb, lambda v: "let %s := %s in %s" % (nm, v, bind(i + 1, {**envb, nm: ty})))
+            return bind(0, e2)
+        finally:
+            self.consts, self.ret_k = old_consts, old_ret
+
     # ---- conditions of `if` ------------------------------------------------------------------------------------------
     def is_flag_test(self, t):
         return any(isinstance(n, ast.Constant) and n.value == "_metadata" for n in ast.walk(t))
@@ -202,6 +259,29 @@ class Tr:
             return "let %s := thrift %s in %s" % (x, x, cont(env))
         if isinstance(s, ast.Expr):
             return self.expr(s.value, env, lambda v: cont(env))
+        if isinstance(s, ast.Return) and self.ret_k is not None:
+            vals = list(s.value.elts) if isinstance(s.value, ast.Tuple) else [s.value]
+            tys = [self.typeof(v, env) for v in vals]
+            rk = self.ret_k
+            return self.exprs(vals, env, lambda vs: rk(vs, tys, env))
+        if isinstance(s, ast.Assign) and len(s.targets) == 1 and isinstance(s.value, ast.Call) and isinstance(s.value.func, ast.Name) \
+                and s.value.func.id in self.helpers:
+            t = s.targets[0]
+            names = [e.id for e in t.elts] if (isinstance(t, ast.Tuple) and all(isinstance(e, ast.Name) for e in t.elts)) else \
+                ([t.id] if isinstance(t, ast.Name) else None)
+            if names is None:
+                self.bail(s, "unsupported target of a helper call")
+
+            def after(vs, tys, env2):
+                if len(vs) != len(names):
+                    self.bail(s, "helper returns %d values, %d expected" % (len(vs), len(names)))
+                e3 = dict(env2)
+                out = ""
+                for nm, v, ty in zip(names, vs, tys):
+                    out += "let %s := %s in " % (nm, v)
+                    e3[nm] = ty
+                return out + cont(e3)
+            return self.inline(s.value, env, after)
         if isinstance(s, ast.Assign) and len(s.targets) == 1:
             t = s.targets[0]
             if isinstance(t, ast.Name):
@@ -312,6 +392,18 @@ def translate_update_file(writer_path):
     fvar = body[0].items[0].optional_vars.id if isinstance(body[0].items[0].optional_vars, ast.Name) else None
     tr = Tr("writer.py", fvar, {flagname: flagname}, int_consts(mod))
     tr.stop = None
+    # helpers: module-level functions of writer.py and of util.py (next to it)
+    mods = [mod]
+    upath = os.path.join(os.path.dirname(os.path.abspath(writer_path)), "util.py")
+    if os.path.exists(upath):
+        mods.append(ast.parse(open(upath).read()))
+    for m in mods:
+        c = int_consts(m)
+        for st in m.body:
+            if isinstance(st, ast.FunctionDef) and st.args.args and st.name != "update_file_custom_metadata":
+                tr.helpers.setdefault(st.name, (st, c))
+    for builtin in ("from_buffer", "update_custom_metadata", "write_thrift", "len", "min", "max"):
+        tr.helpers.pop(builtin, None)
     txt = tr.block(body, {fvar: "file"}, lambda env: "Some (content %s)" % fvar)
     return ("Definition update_file_gen (%s : bool) (thrift : bytes -> bytes) (file : bytes) : option bytes :=\n"
             "  let %s := f_open file in\n  %s.\n" % (flagname, fvar, txt))
